@@ -131,6 +131,10 @@ pub fn run(ctx: &Ctx) {
     let dirs = DirPool::new(ctx, "c08");
     explore(ctx, "random", ctx.tier.pick(400_000, 4_000_000), strategy, |c: &Scenario, o| dirs.with(|d| judge(d, c, o)));
     explore_n(ctx, "behind-the-wrap", ctx.tier.pick(32, 1600), shards(), 64, wrap_strategy, |c: &Scenario, o| dirs.with(|d| judge(d, c, o)));
+    // windows of more than 32768 blocks that really fill (acknowledgement distances beyond half the number space)
+    let huge: Vec<Scenario> = super::c15::huge_window_cases().into_iter().filter(|s| s.role == Role::Sender).collect();
+    let nh = ctx.tier.pick(3, huge.len());
+    enumerate(ctx, "huge-windows", &huge[..nh], false, |c, o| dirs.with(|d| judge(d, c, o)));
     // on the wire the window bound is the *acknowledged* windowsize: downloads from the real tftpd with windows of up to
     // 65535 blocks / several MB, every burst counted by a model client with an enlarged receive buffer (shared with C09)
     explore_n(ctx, "wire-window-bound", ctx.tier.pick(32, 600), shards(), 12, super::c09::big_strategy, |c: &super::c09::Case, o| dirs.with(|d| super::c09::judge(d, c, o)));
